@@ -28,7 +28,7 @@ class C08(WrapHarness):
             for bw in (True, False):
                 out.append(dict(base, algo=algo, bw=bw, mode='relational', ind='both', imax=1,
                                 icl=(1,) if q else (1, 3), gen='sym1', n=2 if q else 3))
-        out += std_tmpl_spaces(dict(base, ind='both', imax=1, icl=(1,)), q, variants=False, mode='prefix')
+        out += std_tmpl_spaces(dict(base, ind='both', imax=1, icl=(1,)), q, variants=False, cind=True, mode='prefix')
         if not q:
             out += tmpl_spaces(dict(base, ind='both', imax=1, icl=(1,)), ['sentence', 'paras', 'longword'], mode='relational')
             out += tmpl_spaces(dict(base, ind='both', imax=1, icl=(1, 3), bw=False), ['sentence', 'paras'], mode='prefix')
